@@ -271,7 +271,15 @@ def _set_pilot_generic():
                  + [(f, lambda s: [(s.self._ev._battery, occupied(s))]) for f in BATT_FIELDS],
         ensures=[C("C13.pilot_recorded", lambda old, new, ret: [Eq(new.self._current_pilot, old.pilot), new.self._ev == old.self._ev]),
                  C("C03.battery_inv_kept", lambda old, new, ret: Implies(occupied(old), And(
-                     battery_inv(new.self._ev._battery), new.self._ev._battery == old.self._ev._battery)))],
+                     battery_inv(new.self._ev._battery), new.self._ev._battery == old.self._ev._battery))),
+                 # the same clause, verbatim, as in the three receiver-specific contracts (each is verified from the body of set_pilot)
+                 C("C02.exactly_one_charge", lambda old, new, ret: Implies(occupied(old), And(
+                     Eq(new.self._ev._energy_delivered,
+                        old.self._ev._energy_delivered
+                        + _energy(new.self._ev._current_charging_rate, old.voltage, old.period)),
+                     Eq(new.self._ev._energy_delivered - old.self._ev._energy_delivered,
+                        new.self._ev._battery._current_charge - old.self._ev._battery._current_charge),
+                     new.self._ev._battery == old.self._ev._battery)))],
     )
 
 
